@@ -46,7 +46,7 @@ def builder_obligations(chk, P, rule, fs=False):
     """EAM_Potential_Builder(cp, forms, modifiers, reference_data=rd).eam_potentials on a one-species model (sa/eamrules.py)"""
     from .. import eamrules as E
     ci = P.cls(E.BUILDER_MOD, "EAM_Potential_Builder_FS" if fs else "EAM_Potential_Builder")
-    site = ci.lookup("eam_potentials").site()
+    site = ci.site_of("eam_potentials")
     sp = Const("Xx")
     embed = [("Xx", W.param("F_Xx"))]
     dens = [("Xx", W.param("rho_Xx"))]
@@ -70,7 +70,7 @@ def builder_obligations(chk, P, rule, fs=False):
     e = I3.instantiate(ecls, [Const("Xx"), W.nsym("Z"), W.nsym("m"), W.param("F_Xx"), W.param("rho_Xx")], {}, None)
     lc, lt = I3.getattr(e, "latticeConstant"), I3.getattr(e, "latticeType")
     chk.ob(rule, "EAMPotential(species, number, mass, embed, density) without lattice data has the documented defaults 0.0 / 'fcc'",
-           isinstance(lc, Num) and lc.const() == 0 and isinstance(lt, Const) and lt.v == "fcc", site=ecls.lookup("__init__").site(),
+           isinstance(lc, Num) and lc.const() == 0 and isinstance(lt, Const) and lt.v == "fcc", site=ecls.site_of("__init__"),
            found=(lc, lt), expect="(0.0, 'fcc')", key="%s|api-defaults" % rule)
 
     # reference data without an entry
@@ -96,7 +96,7 @@ def builder_obligations(chk, P, rule, fs=False):
 def reference_data_obligations(chk, P, rule):
     mod = "atsim.potentials.referencedata._reference_data"
     ci = P.cls(mod, "Reference_Data")
-    site = ci.lookup("get").site()
+    site = ci.site_of("get")
     I = W.make_interp(P)
     extra = DictV()
     al = DictV()
